@@ -82,7 +82,7 @@ def main():
         core.bootstrap()
         mod = driver._load_module(prop)
         runs = [int(x) for x in args.digests.split(',') if x]
-        print(json.dumps(driver.digests_for(mod, seed, args.tier, runs)))
+        print(json.dumps(driver.digests_clean(mod, seed, args.tier, runs)))
         return 0
 
     if args.one is not None:
